@@ -1,14 +1,20 @@
 package checks
 
 import (
+	"context"
 	"errors"
 	"fmt"
+	"github.com/bartossh/Computantis/src/gossip"
+	"github.com/bartossh/Computantis/src/protobufcompiled"
+	"github.com/bartossh/Computantis/src/transformers"
+	"google.golang.org/protobuf/proto"
 	"math/rand"
 	"sort"
 	"strings"
 	"sync"
 	"sync/atomic"
 	"time"
+	"verifharness/svc"
 
 	"github.com/anishathalye/porcupine"
 	"github.com/bartossh/Computantis/src/cache"
@@ -405,7 +411,148 @@ func c17Expiry(w *core.WorkerCtx, done chan<- struct{}) {
 	}
 }
 
+// c17Service: "nobody but the receiver can remove it" on a whole node. An awaiting contract T (issuer I, receiver R)
+// is attacked through every service entry that can reach RemoveAwaitedTransaction: notary Reject signed by the issuer,
+// by a third wallet and with a broken signature; gossiped vertices that name T but are refused (under the hash of a
+// vertex the node already holds, unsigned, sealed by the issuer itself, with an unknown parent); gossiped copies of T.
+// T must stay listed for I and R. At the end R rejects it and it must leave both lists.
+func c17Service(w *core.WorkerCtx) {
+	r := w.R
+	rig, err := svc.New(4, 60, 2048)
+	if err != nil {
+		r.Inconc("cannot build the node: " + err.Error())
+		return
+	}
+	defer rig.Close()
+	ctx := context.Background()
+	I, R, X := rig.Users[0], rig.Users[1], rig.Users[2]
+	listed := func(t *transaction.Transaction) (bool, bool) {
+		in := func(a string) bool {
+			l, _ := rig.Cache.ReadTransactions(a)
+			for _, x := range l {
+				if x.Hash == t.Hash {
+					return true
+				}
+			}
+			return false
+		}
+		return in(I.Addr), in(R.Addr)
+	}
+	rounds := w.Pick(3, 20)
+	for round := 0; round < rounds; round++ {
+		// a little history, so that there are tips sealed by the node and by a peer
+		ft := ledger.ForgeTrx(I, X.Addr, fmt.Sprintf("history %d", round), nil, spice.Melange{SupplementaryCurrency: uint64(1 + round)}, time.Now().Add(-time.Minute))
+		fp, _ := transformers.TrxToProtoTrx(ft)
+		rig.Notary.Propose(ctx, fp)
+		t := ledger.ForgeTrx(I, R.Addr, fmt.Sprintf("awaiting contract %d", round), []byte("contract"), spice.Melange{SupplementaryCurrency: 5}, time.Now().Add(-time.Minute))
+		tp, _ := transformers.TrxToProtoTrx(t)
+		if _, err := rig.Notary.Propose(ctx, tp); err != nil {
+			r.Inconc("cannot save an awaiting contract: " + err.Error())
+			return
+		}
+		if a, b := listed(&t); !a || !b {
+			r.Violate("C17", "service/saved-contract-not-listed", fmt.Sprintf("a proposed contract is listed for issuer=%v receiver=%v", a, b), nil)
+			continue
+		}
+		s, _ := ledger.TakeSnap(rig.Book)
+		var tip ledger.H
+		var wgt uint64
+		for h := range s.Leaves {
+			tip, wgt = h, s.Live[h].V.Weight
+		}
+		tipV := s.Live[tip].V
+		type attack struct {
+			name string
+			run  func()
+		}
+		gossipVrx := func(v *protobufcompiled.Vertex) {
+			rig.Flash.RemoveAddress(string(v.Hash))
+			func() {
+				defer func() { recover() }()
+				rig.Gossip.GossipVrx(ctx, &protobufcompiled.VrxMsgGossip{Vertex: v})
+			}()
+		}
+		var ghost ledger.H
+		ghost[0], ghost[3] = 0xCC, byte(round)
+		attacks := []attack{
+			{"notary.Reject signed by the issuer", func() { rig.Notary.Reject(ctx, svc.Sign(I, t.Hash[:])) }},
+			{"notary.Reject signed by a third wallet", func() { rig.Notary.Reject(ctx, svc.Sign(X, t.Hash[:])) }},
+			{"notary.Reject naming the receiver with the issuer's signature", func() {
+				m := svc.Sign(I, t.Hash[:])
+				m.Address = R.Addr
+				rig.Notary.Reject(ctx, m)
+			}},
+			{"notary.Reject by the receiver with a flipped signature bit", func() {
+				m := svc.Sign(R, t.Hash[:])
+				m.Signature[3] ^= 4
+				rig.Notary.Reject(ctx, m)
+			}},
+			{"gossiped vertex under the hash of genesis carrying T", func() {
+				g := rig.Genesis
+				pv := gossip.VerifVertexToProtoVertex(&g)
+				pv.Transaction = proto.Clone(tp).(*protobufcompiled.Transaction)
+				gossipVrx(pv)
+			}},
+			{"gossiped copy of a held tip with T's hash and receiver swapped in", func() {
+				pv := gossip.VerifVertexToProtoVertex(&tipV)
+				pv.Transaction.Hash = t.Hash[:]
+				pv.Transaction.ReceiverAddress = R.Addr
+				gossipVrx(pv)
+			}},
+			{"gossiped vertex carrying T with a corrupted sealing signature", func() {
+				v := ledger.ForgeVertex(rig.PeerAct[0], t, tip, tip, wgt+1, time.Now().Add(-time.Second))
+				v.Signature[5] ^= 1
+				gossipVrx(gossip.VerifVertexToProtoVertex(&v))
+			}},
+			{"gossiped vertex carrying T sealed by T's own issuer", func() {
+				v := ledger.ForgeVertex(I, t, tip, tip, wgt+1, time.Now().Add(-time.Second))
+				gossipVrx(gossip.VerifVertexToProtoVertex(&v))
+			}},
+			{"gossiped vertex carrying T with T's amount changed", func() {
+				v := ledger.ForgeVertex(rig.PeerAct[1], t, tip, tip, wgt+1, time.Now().Add(-time.Second))
+				pv := gossip.VerifVertexToProtoVertex(&v)
+				pv.Transaction.Spice.SupplementaryCurrency++
+				gossipVrx(pv)
+			}},
+			{"gossiped copy of T itself", func() {
+				rig.Flash.RemoveAddress(string(t.Hash[:]))
+				rig.Gossip.GossipTrx(ctx, &protobufcompiled.TrxMsgGossip{Trx: proto.Clone(tp).(*protobufcompiled.Transaction)})
+			}},
+			{"notary.Confirm with the issuer's signature in the receiver's place", func() {
+				c := proto.Clone(tp).(*protobufcompiled.Transaction)
+				c.ReceiverSignature = c.IssuerSignature
+				rig.Notary.Confirm(ctx, c)
+			}},
+		}
+		for _, a := range attacks {
+			w.Mark("c17 service: %s", a.name)
+			a.run()
+			time.Sleep(time.Millisecond)
+			r.Eval(1)
+			r.Count("c17_service_removal_attempts", 1)
+			r.Nontriv("service/" + a.name)
+			if li, lr := listed(&t); !li || !lr {
+				r.Violate("C17", "removed-by-non-receiver/"+a.name, fmt.Sprintf("after [%s] the awaiting contract is listed for issuer=%v receiver=%v: somebody other than the receiver took it off", a.name, li, lr), nil)
+				break
+			}
+		}
+		if li, lr := listed(&t); li && lr {
+			// the receiver rejects: off both lists
+			if _, err := rig.Notary.Reject(ctx, svc.Sign(R, t.Hash[:])); err != nil {
+				r.Violate("C17", "service/receiver-cannot-remove", fmt.Sprintf("the receiver's Reject failed: %v", err), nil)
+			} else if li, lr := listed(&t); li || lr {
+				r.Violate("C17", "service/removed-from-one-list-only", fmt.Sprintf("after the receiver's Reject the contract is still listed for issuer=%v receiver=%v", li, lr), nil)
+			}
+			r.Eval(1)
+			r.Nontriv("service/receiver-rejects")
+		}
+	}
+}
+
 func c17Worker(w *core.WorkerCtx) {
+	if w.Batch == 1 {
+		c17Service(w)
+	}
 	if w.Thorough() && w.Batch == 0 {
 		done := make(chan struct{})
 		go c17Expiry(w, done)
